@@ -212,6 +212,9 @@ impl FlwCfg {
             b"\n"
         }
     }
+    pub fn fixed_contains_dot(&self) -> bool {
+        self.names.fixed().contains('.')
+    }
     pub fn name_mask(&self) -> String {
         format!(
             "{}{}{}{}",
@@ -557,6 +560,8 @@ pub struct Model {
     pub truncations: u64,
     pub removed_by_cleanup: u64,
     pub compressed_by_cleanup: u64,
+    /// keep everything ever written (the observation is then judged as a tail of it)
+    pub no_trim: bool,
 }
 
 impl Model {
@@ -575,6 +580,7 @@ impl Model {
             truncations: 0,
             removed_by_cleanup: 0,
             compressed_by_cleanup: 0,
+            no_trim: false,
         }
     }
 
@@ -677,6 +683,9 @@ impl Model {
 
     /// cleanup by the documented limits (Appendix C)
     pub fn trim(&mut self) {
+        if self.no_trim {
+            return;
+        }
         let Some((k, m)) = self.clean.limits() else {
             return;
         };
@@ -944,4 +953,283 @@ pub fn base_time_ns(rng: &mut Rng) -> i64 {
     let base: i64 = 1_615_714_013; // 2021-03-14T09:26:53Z
     let off = rng.range(0, 400 * 86_400);
     (base + off) * 1_000_000_000 + rng.range(0, 999_999) * 1_000
+}
+
+// ------------------------------------------------------------------------------------------
+// history executor shared by the partition / restart / cleanup monitors
+
+#[derive(Clone, Debug)]
+pub enum HOp {
+    Write(log::Level, usize),
+    Trigger,
+    Flush,
+    Advance(i64),
+    /// orderly stop of the logger and start of a new one on the same family
+    Restart { append: bool },
+}
+
+pub struct Hist {
+    pub cfg: FlwCfg,
+    pub driver: Driver,
+    pub model: Model,
+    pub seq: u64,
+    pub run: u64,
+    pub records: u64,
+    pub restarts: u64,
+    pub triggers_effective: u64,
+    pub advanced_seconds: bool,
+}
+
+impl Hist {
+    pub fn start(cfg: FlwCfg) -> Result<Hist, String> {
+        let driver = Driver::build(&cfg)?;
+        let model = Model::new(&cfg);
+        Ok(Hist {
+            cfg,
+            driver,
+            model,
+            seq: 0,
+            run: 0,
+            records: 0,
+            restarts: 0,
+            triggers_effective: 0,
+            advanced_seconds: false,
+        })
+    }
+
+    pub fn now(&self) -> i64 {
+        ctl::clock_get().unwrap_or(0)
+    }
+
+    /// applies one operation to the real logger and to the model
+    pub fn apply(&mut self, op: &HOp) -> Result<(), String> {
+        match op {
+            HOp::Write(level, len) => {
+                let msg = msg_exact(self.seq, *len);
+                self.seq += 1;
+                self.driver.write(*level, &msg);
+                if *level <= self.cfg.max_level {
+                    let mut line = self.cfg.fmt.expected(*level, &msg);
+                    line.extend_from_slice(self.cfg.line_ending());
+                    let now = self.now();
+                    self.model.write(&line, self.cfg.append, now);
+                }
+                self.records += 1;
+            }
+            HOp::Trigger => {
+                let now = self.now();
+                if self.model.active {
+                    self.triggers_effective += 1;
+                }
+                self.model.trigger(now);
+                self.driver.rotate()?;
+            }
+            HOp::Flush => self.driver.flush(),
+            HOp::Advance(d) => {
+                let before = self.now() / 1_000_000_000;
+                ctl::clock_advance(*d);
+                if self.now() / 1_000_000_000 != before {
+                    self.advanced_seconds = true;
+                }
+            }
+            HOp::Restart { append } => {
+                self.driver.shutdown();
+                self.cfg.append = *append;
+                self.model.restart(&self.cfg);
+                self.driver = Driver::build(&self.cfg)?;
+                self.run += 1;
+                self.restarts += 1;
+            }
+        }
+        Ok(())
+    }
+
+    pub fn observe(&self) -> std::io::Result<DirObs> {
+        family::observe(&self.cfg.names)
+    }
+
+    pub fn shutdown(&mut self) {
+        self.driver.shutdown();
+    }
+}
+
+/// installs the controllers for a deterministic in-process history
+pub fn install_virtual(t0: i64) {
+    ctl::install(false);
+    ctl::clock_set(t0);
+    ctl::with_ctl(|c| c.use_creation_table = true);
+}
+pub fn uninstall_virtual() {
+    ctl::uninstall();
+    ctl::clock_unset();
+}
+
+/// creates a pre-existing current file (content + virtual creation instant) and tells the model
+pub fn preexisting_current(cfg: &FlwCfg, model: &mut Model, content: Vec<u8>, created_ns: i64) {
+    let infix = match &cfg.names.naming {
+        NamingK::NoRotation => String::new(),
+        NamingK::Numbers | NamingK::Timestamps => family::CURRENT.to_string(),
+        NamingK::Custom { current: Some(c), .. } => c.clone(),
+        NamingK::NumbersDirect => "r00000".to_string(),
+        NamingK::TimestampsDirect | NamingK::Custom { current: None, .. } => {
+            let fmt = cfg.names.naming.ts_fmt().unwrap();
+            let t = ctl::local_from_ns(created_ns);
+            if cfg.use_utc {
+                t.naive_utc().format(fmt).to_string()
+            } else {
+                t.format(fmt).to_string()
+            }
+        }
+    };
+    let p = cfg.names.path(&infix);
+    std::fs::write(&p, &content).expect("cannot create pre-existing file");
+    ctl::creation_register(&p, created_ns);
+    model.current = Some(Seg {
+        content,
+        started_ns: created_ns,
+        gz: false,
+    });
+}
+
+
+// ------------------------------------------------------------------------------------------
+// survivor oracle shared by C06 (tolerant) and C07 (strict), Appendix C
+
+/// The observed rotated files must be a contiguous newest tail of the model's rotated segments
+/// (the model never trims), the current file must match; with `strict` the upper bounds of the
+/// cleanup strategy and the "compressed files are the older ones" rule are enforced as well.
+pub fn survivor_check(
+    cfg: &FlwCfg,
+    model: &Model,
+    obs: &DirObs,
+    strict: bool,
+) -> Result<(), (String, String)> {
+    let (k, m) = cfg.clean.limits().unwrap_or((usize::MAX / 4, 0));
+    let direct = cfg.names.naming.is_direct();
+    if obs.has_twins() {
+        return Err((
+            "twin".into(),
+            format!("a file and its .gz twin coexist: {:?}", obs.names()),
+        ));
+    }
+    let exp_rot = &model.rotated;
+    let exp_cur = model.current.as_ref();
+    // split the observation
+    let (obs_rot, obs_cur): (&[family::FileObs], Option<&family::FileObs>) = if direct
+        || cfg.names.naming == NamingK::NoRotation
+    {
+        if exp_cur.is_some() && !obs.family.is_empty() {
+            (&obs.family[..obs.family.len() - 1], obs.family.last())
+        } else {
+            (&obs.family[..], None)
+        }
+    } else {
+        match obs.family.last() {
+            Some(l) if matches!(l.entry.kind, Kind::Current) => {
+                (&obs.family[..obs.family.len() - 1], Some(l))
+            }
+            _ => (&obs.family[..], None),
+        }
+    };
+    match (exp_cur, obs_cur) {
+        (Some(_), None) => {
+            return Err((
+                "current-file-missing".into(),
+                format!("the current file is missing: {:?}", obs.names()),
+            ))
+        }
+        (None, Some(o)) => {
+            return Err((
+                "unexpected-current-file".into(),
+                format!("{} exists although nothing was written to it", o.entry.name),
+            ))
+        }
+        (Some(e), Some(o)) => {
+            if o.entry.gz {
+                return Err((
+                    "current-file-compressed".into(),
+                    format!("the file currently written to is compressed: {:?}", obs.names()),
+                ));
+            }
+            let c = o.content.as_ref().map_err(|e| ("unreadable".to_string(), e.clone()))?;
+            if let Some(d) = diff_bytes(&e.content, c) {
+                return Err((
+                    "current-file-content".into(),
+                    format!("current file {}: {d}; all {:?}", o.entry.name, obs.names()),
+                ));
+            }
+        }
+        (None, None) => {}
+    }
+    if obs_rot.len() > exp_rot.len() {
+        return Err((
+            "file-count".into(),
+            format!(
+                "found {} rotated files {:?} but only {} were ever written",
+                obs_rot.len(),
+                obs.names(),
+                exp_rot.len()
+            ),
+        ));
+    }
+    let off = exp_rot.len() - obs_rot.len();
+    for (i, o) in obs_rot.iter().enumerate() {
+        let c = o
+            .content
+            .as_ref()
+            .map_err(|e| ("gz-undecodable".to_string(), format!("{}: {e}", o.entry.name)))?;
+        if let Some(d) = diff_bytes(&exp_rot[off + i].content, c) {
+            return Err((
+                "not-newest-tail".into(),
+                format!(
+                    "rotated file {} (#{i} of {:?}) is not segment #{} of the {} rotated segments: {d}",
+                    o.entry.name,
+                    obs.names(),
+                    off + i,
+                    exp_rot.len()
+                ),
+            ));
+        }
+    }
+    let n_gz = obs_rot.iter().filter(|f| f.entry.gz).count();
+    let n_plain = obs_rot.len() - n_gz;
+    if strict {
+        if n_plain > k {
+            return Err((
+                "too-many-plain".into(),
+                format!("{n_plain} rotated plain files exceed the limit {k}: {:?}", obs.names()),
+            ));
+        }
+        if n_gz > m {
+            return Err((
+                "too-many-compressed".into(),
+                format!("{n_gz} compressed files exceed the limit {m}: {:?}", obs.names()),
+            ));
+        }
+        if let Some(first_plain) = obs_rot.iter().position(|f| !f.entry.gz) {
+            if obs_rot[first_plain..].iter().any(|f| f.entry.gz) {
+                return Err((
+                    "newer-file-compressed".into(),
+                    format!(
+                        "a compressed file is newer than a plain rotated one: {:?}",
+                        obs.names()
+                    ),
+                ));
+            }
+        }
+    }
+    let delta = usize::from(direct && exp_cur.is_some());
+    let lower = exp_rot.len().min(k.saturating_add(m)).saturating_sub(delta);
+    if obs_rot.len() < lower {
+        return Err((
+            "lost-beyond-limit".into(),
+            format!(
+                "only {} rotated files survive ({:?}) although the limits ({k} plain, {m} compressed) permit {lower} of the {} written",
+                obs_rot.len(),
+                obs.names(),
+                exp_rot.len()
+            ),
+        ));
+    }
+    Ok(())
 }
